@@ -516,6 +516,16 @@ def comps(p):
     return [str(x) for x in Path(p).parts]
 
 
+class _FsPath:
+    """an os.PathLike that is neither str nor pathlib.Path (like os.DirEntry)"""
+    def __init__(self, p):
+        self._p = str(p)
+    def __fspath__(self):
+        return self._p
+    def __repr__(self):
+        return f"<FsPath {self._p!r}>"
+
+
 def run_paths(case, workdir: Path):
     """C18 observation: save under A, inspect stored paths, load under B and under no directory."""
     tmp = Path(tempfile.mkdtemp(prefix="aoefp_", dir=str(workdir)))
@@ -529,8 +539,8 @@ def run_paths(case, workdir: Path):
         B = {"abs": tmp / "moved" / "audio B", "rel": Path("moved") / "audio B", "rel_first": Path(first)}[bk]
         root, rev, recs = build_world(case, A)
         mode = case["audio"]
-        adir = {"none": None, "str": str(A), "path": A}[mode]
-        bdir = {"none": None, "str": str(B), "path": B}[mode]
+        adir = {"none": None, "str": str(A), "path": A, "fspath": _FsPath(A)}[mode]
+        bdir = {"none": None, "str": str(B), "path": B, "fspath": _FsPath(B)}[mode]
         f = tmp / "out" / "doc.json"
         call = case.get("call", "default")
         skw = {"format": "aoef"} if call == "format_aoef" else ({"format": None} if call == "format_none" else {})
@@ -574,7 +584,7 @@ def run_paths(case, workdir: Path):
             A2 = A.parent if str(A.parent) not in ("", ".") else Path(".")
             if str(A2) != ".":
                 f2 = tmp / "out" / "doc2.json"
-                a2 = str(A2) if mode == "str" else A2
+                a2 = str(A2) if mode == "str" else (_FsPath(A2) if mode == "fspath" else A2)
                 out["saved2"], _ = outcome_of(lambda: io.save(root, f2, audio_dir=a2))
                 out["A2"] = comps(A2)
                 if out["saved2"] == "":
